@@ -185,7 +185,7 @@ fn make_case(via: StreamVia, prefill: &[u32], prefill_close: bool, feeder: &[Op]
         desc,
         exec: ExecCfg::default(),
         bound,
-        scene: Box::new(ProgScene {
+        scene: Box::new(ProgScene { variant: crate::progscene::current_variant(),
             spawn: SpawnCfg::plain(Mailbox::U),
             attach: Attach::Stream { via, prefill: prefill.to_vec(), close: prefill_close },
             roles: vec![role],
